@@ -300,8 +300,17 @@ func lexStmt(l *lexer) stateFn {
 			l.emit(itemSemiColon)
 			return lexStmt
 		case r == '+':
-			l.emit(itemPlus)
-			return lexStmt
+			// The concatenation sign stands alone between quoted strings.
+			// A '+' that starts a longer unquoted token ("default +5;")
+			// is part of that token.
+			if nx := l.peek(); nx == '"' || nx == '\'' || isTerminator(nx) ||
+				strings.HasPrefix(l.input[l.pos:], leftComment) ||
+				strings.HasPrefix(l.input[l.pos:], lineComment) {
+				l.emit(itemPlus)
+				return lexStmt
+			}
+			// (the token started at the '+', which stays part of it)
+			return lexString
 		default:
 			l.backup()
 			return lexString
